@@ -98,7 +98,7 @@ func (d *driver) runSqrtCase(w emitter, k int, c *sqrtCase) {
 	case "yside":
 		// x-coordinates built from the y side: the larger root sits at the boundary of the sign choice ((p-1)/2 limb by limb, p-1)
 		for i := 0; i < c.N; i++ {
-			dc := decCase{Fn: "SetBytesUncompressed", Cls: []string{"yhalf", "yhalf64", "yhalf128", "yhalf192", "ytop"}[i%5]}
+			dc := decCase{Fn: "SetBytesUncompressed", Cls: []string{"yhalf", "yhalf64", "yhalf128", "yhalf192", "ytop", "ypat"}[i%6]}
 			buf := (&driver{seed: d.seed + k}).decodeInput(&dc, i)
 			d.pointEvent(w, k, "yside/"+dc.Cls, new(big.Int).SetBytes(buf[:32]))
 		}
